@@ -242,6 +242,7 @@ def cur():
 class SB:
     """Symbolic bool."""
     __slots__ = ("t", "on_true", "on_false")
+    __array_ufunc__ = None
 
     def __init__(self, t, on_true=None, on_false=None):
         self.t = t
